@@ -11,8 +11,10 @@ An effect argument over the linked IR of every analysed configuration:
       returns a pointer to static storage;
   D3  pointer parameters declared const in the public headers are never
       written through (direct stores, block operations, or callees that write);
-  D4  external callees are within a list of re-entrant libc/system functions.
-Given D1-D4, two calls on distinct objects touch disjoint mutable memory.
+  D4  external callees are within a list of re-entrant libc/system functions;
+  D5  constant-extent accesses through a caller's byte buffer fit the
+      guard-bounded remaining length (the `pointee` of D2 is [buf, buf+len)).
+Given D1-D5, two calls on distinct objects touch disjoint mutable memory.
 """
 import os
 
@@ -106,11 +108,14 @@ def run(rep, tier):
         rule_footprint(rep, m, cname)
         rule_const_params(rep, m, cname, api, W)
         rule_externals(rep, m, cname, asm_writes)
+        rule_buffer_extent(rep, m, cname, b)
         rep.functions += len(m.defined())
     rep.floor("C16.D1", 8 * len(cfgs))
     rep.floor("C16.D2", 400 * len(cfgs))
     rep.floor("C16.D3", 150 * len(cfgs))
     rep.floor("C16.D4", 5 * len(cfgs))
+    from .rules_c12 import control_d6
+    control_d6(rep, "C16.D5")      # today's tree has no such access: the fixture keeps the rule alive
 
 
 # ---------------------------------------------------------------------------
@@ -277,6 +282,32 @@ def _find_writer(m, f, k, W, depth=0):
         if tgt is not None and any(r == ("param", want) for r in R.resolve(tgt).roots):
             return "%s at %s" % (i.op, i.where())
     return None
+
+
+# ---------------------------------------------------------------------------
+def rule_buffer_extent(rep, m, cname, build):
+    """D5: the footprint of D2 is `the pointees of the parameters`; for a byte
+    buffer passed with its length that pointee is [buf, buf+len).  A load or
+    store of constant extent relative to the buffer cursor that cannot fit in
+    the guard-bounded remaining length touches the neighbouring object, which
+    another thread may own: a read-modify-write there loses that thread's
+    update even if the bytes are written back unchanged (same decision
+    procedure as C12.D6)."""
+    from .rules_c12 import rule_output_range
+    rid = "C16.D5"
+    rep.rule(rid, "accesses through a caller's byte buffer stay inside [buffer, buffer+length): no touch of a neighbouring object")
+    decls = {}
+    for d in facts.group_facts(build, "lib", ("c",)):
+        for x in d["decls"]:
+            if x.get("def"):
+                decls.setdefault(x["name"], x)
+    for f in m.defined():
+        if not f.srcfile.startswith(repo.REPO):
+            continue
+        dd = decls.get(f.d.get("srcname", f.name))
+        if dd is not None:
+            rule_output_range(rep, m, f, dd, cname, rid=rid,
+                              why="; the bytes beyond the buffer belong to another object, which a concurrent thread may be using")
 
 
 # ---------------------------------------------------------------------------
